@@ -800,7 +800,7 @@ theorem tokenizeF_open_comment (f : Nat) (b : List Char) (hb : closeComment b = 
   have hs := List.all_eq_true.mp singles_ok ('(', Tok.lparen) (by decide)
   simp only [Bool.and_eq_true, Bool.not_eq_true', beq_iff_eq] at hs
   have hl := longestSpelling_single '(' ('*' :: b) _ _ hs.1.1.2 hs.1.2
-  have ht : tokOfRow (rowOf Tok.lparen).1 (rowOf Tok.lparen).2 = some Tok.lparen := hs.2
+  have ht : tokOfRow (tokRowOf Tok.lparen).1 (tokRowOf Tok.lparen).2 = some Tok.lparen := hs.2
   rw [tokenizeF]
   simp only [h, h2, h3, h4, Bool.false_and, Bool.false_eq_true, if_false, beq_self_eq_true, List.head?_cons,
     Bool.true_and, if_true, List.tail_cons, hb, hl, ht, List.drop_succ_cons, List.drop_zero, tokenizeF_star]
